@@ -213,6 +213,8 @@ pub fn configs(prop: &str, thorough: bool) -> Vec<(Cfg, Option<usize>)> {
                 c.amounts = vec![1, 2];
                 c.mint_amounts = if n == "capmax" { vec![0, 1, 2, MAX] } else { vec![0, 1, 2, 3, MAX] };
                 c.kinds = kinds(&["Mint", "Burn", "UpdateMinter", "Transfer"]);
+                // upgrades must not touch the minter or the cap: migrate from every old layout at every state
+                c.migrate_probe = true;
                 let depth = if n == "capmax" { Some(if thorough { 5 } else { 3 }) } else { None };
                 out.push((c, if must_fail { Some(0) } else { depth }));
             }
